@@ -92,12 +92,20 @@ func chars(b []byte) []string {
 func apply(kind, tok string, old []byte) ([]byte, error) {
 	switch kind {
 	case "append":
+		if atomic.AddInt64(&aliasSeq, 1)%2 == 0 {
+			// the result is built on the argument (the documented contract forbids changing the bytes handed in, not growing
+			// the slice behind them): it starts where the argument starts, and is one byte longer
+			return append(old, tok[0]), nil
+		}
 		return append(append([]byte{}, old...), tok[0]), nil
 	case "clear":
 		return nil, nil
 	case "chop":
 		if len(old) == 0 {
 			return old, nil
+		}
+		if atomic.AddInt64(&aliasSeq, 1)%2 == 0 {
+			return old[:len(old)-1], nil // a prefix of the argument itself
 		}
 		return append([]byte{}, old[:len(old)-1]...), nil
 	case "same":
@@ -113,21 +121,22 @@ func apply(kind, tok string, old []byte) ([]byte, error) {
 }
 
 type runner struct {
-	dir      string
-	data     string
-	mpath    string
-	witness  string
-	fifo     string
-	newf     string // does not exist when a run starts (O_EXCL creators)
-	gc       bool   // run the garbage collector inside critical sections
-	mu       sync.Mutex
-	events   []Event
-	l1       []string
-	nops     int
-	inject   Inject
-	shared   *lockedfile.Mutex
-	children []*exec.Cmd
-	free     *os.File // free mode: shared O_APPEND log
+	dir        string
+	data       string
+	mpath      string
+	witness    string
+	fifo       string
+	newf       string // does not exist when a run starts (O_EXCL creators)
+	gc         bool   // run the garbage collector inside critical sections
+	mu         sync.Mutex
+	events     []Event
+	l1         []string
+	nops       int
+	inject     Inject
+	readFailed bool
+	shared     *lockedfile.Mutex
+	children   []*exec.Cmd
+	free       *os.File // free mode: shared O_APPEND log
 }
 
 func (r *runner) log(e Event) {
@@ -192,6 +201,18 @@ func (r *runner) Before(op *vos.Op) vos.Action {
 		ev.Fail = true
 		r.log(ev)
 		return vos.Action{Err: syscall.EACCES}
+	}
+	if cls == "data" && op.Kind == "read" && r.inject.Kind == "rfail" {
+		// the first read of the contents fails: whoever wanted them has nothing to work on
+		r.mu.Lock()
+		first := !r.readFailed
+		r.readFailed = true
+		r.mu.Unlock()
+		if first {
+			ev.Fail = true
+			r.log(ev)
+			return vos.Action{Err: syscall.EIO}
+		}
 	}
 	if cls == "data" && (op.Kind == "writeat" || op.Kind == "write" || (op.Kind == "truncate")) {
 		r.mu.Lock()
@@ -373,6 +394,12 @@ func newRunner(init []string) *runner {
 	r := &runner{dir: dir, data: filepath.Join(dir, "data"), mpath: filepath.Join(dir, "lock"), witness: filepath.Join(dir, "witness"),
 		fifo: filepath.Join(dir, "fifo"), newf: filepath.Join(dir, "newfile")}
 	os.Remove(r.newf)
+	// in every fourth run the file that does not exist yet lies in a directory that does not exist either: creating it
+	// fails, and whoever is told otherwise holds no lock
+	os.RemoveAll(filepath.Join(dir, "nodir"))
+	if atomic.LoadInt64(&runnerSeq)%4 == 3 {
+		r.newf = filepath.Join(dir, "nodir", "sub", "newfile")
+	}
 	os.Remove(r.witness + "-new")
 	os.Remove(r.fifo)
 	seq0 := atomic.LoadInt64(&runnerSeq)
@@ -418,6 +445,15 @@ func newRunner(init []string) *runner {
 	}
 	// every third run the data file is named relative to the current directory, and the garbage collector runs while
 	// locks are held: a lock lasts until Close, not until the File value happens to be collected
+	// ... and in every third run the data file is reached through a symbolic link: the file is what gets locked,
+	// whatever the name that leads to it
+	if seq%3 == 2 {
+		link := filepath.Join(dir, "datalink")
+		os.Remove(link)
+		if err := os.Symlink("data", link); err == nil {
+			r.data = link
+		}
+	}
 	if seq%3 == 1 {
 		if err := os.Chdir(dir); err == nil {
 			r.data = "data"
@@ -428,6 +464,7 @@ func newRunner(init []string) *runner {
 }
 
 var runnerSeq int64
+var aliasSeq int64
 
 // the handle each actor closed last (kept across runs: a recycled File value would be found again by a later run)
 var (
@@ -784,6 +821,10 @@ func main() {
 			if isWrite {
 				continue
 			}
+			// reading the old contents fails: nothing is known about them, nothing may be written
+			col.add(runOne("Fault", "rfail", cfg, &vsched.Replay{}, Inject{Kind: "rfail"}))
+			res.Eval(true)
+			res.Count("inject_rfail", 1)
 			c2 := Config{Prog: Prog{"a1": {{Op: "transform", Kind: "ferr", Tok: "t", V: []string{}}}, "a2": {}, "a3": {}}, Init: cfg.Init}
 			col.add(runOne("Fault", "ferr", c2, &vsched.Replay{}, Inject{Kind: "ferr"}))
 			res.Eval(true)
